@@ -108,6 +108,9 @@ def run(repo, rep):
     rep.assume("driver action ids (1,2,5), the COP1 magic and the reserved<<16|length decoding are frozen from the Ethos-U core driver ABI")
 
     rule_stateless(repo, rep, mod)
+    rep.clause("C17-p", "every Ethos-U custom operator is wired to the memory tensors (command stream included) of its own callee subgraph, read in the same iteration")
+    rep.clause("C17-q", "a tensor's data is written to the buffer the tensor table names for it; buffers are shared only under a key that covers the whole data")
+    rule_round10(repo, rep)
     rep.clause("C17-l", "the size guard rejects exactly the lengths that do not fit 24 bits; the empty stream is accepted")
     rule_length_guard_exact(repo, rep, mod)
     rep.clause("C17-m", "buffers are 16-byte aligned in the written file (Prep(16)), so that the payload's own 16-byte alignment of the command words holds in the file")
@@ -585,3 +588,60 @@ def rule_round9(repo, rep):
                 ok = True
         rep.check(ok, "C17-o", site, f"`{norm(c)}` runs for every CPU subgraph of `nng.subgraphs`",
                   f"`{norm(c)}` is not applied to each subgraph: an Ethos-U operator inside a WHILE body keeps its plain inputs, the written model has no command-stream tensor (COP1 payload) for it")
+
+
+def rule_round10(repo, rep):
+    """(p) every Ethos-U custom operator is wired to the four memory tensors of *its own* callee subgraph: the collection
+    rewrite_npu_call_ops inserts in front of the operator's inputs is built, in the same iteration, from the `callee` that iteration read
+    from `op.attrs["subgraph"]` - not kept from an earlier operator (the command stream tensor is per subgraph: a second NPU subgraph would be
+    written with the first one's payload).
+    (q) the payload bytes of a tensor reach the buffer the tensor table names for it: serialise_tensor stores the data under
+    `self.buffer_map[tens]`; a redirection of the buffer index is accepted only through a table keyed by the *whole* data (exact sharing) -
+    a key made of slices of the data lets two command streams that differ in the middle share one buffer."""
+    ns = repo.mod("npu_serialisation")
+    fn = ns.func("rewrite_npu_call_ops")
+    site = "ethosu/vela/npu_serialisation.py:rewrite_npu_call_ops"
+    blocks = [i for i in ast.walk(fn) if isinstance(i, ast.If) and "Op.CustomNpuOp" in str(norm(i.test))]
+    if len(blocks) != 1:
+        raise AnalysisError(f"rewrite_npu_call_ops: {len(blocks)} custom operator blocks")
+    blk = blocks[0]
+    callee_defs = [st for st in blk.body if isinstance(st, ast.Assign) and str(norm(st.targets[0])) == "callee"]
+    rep.check(len(callee_defs) == 1 and "attrs['subgraph']" in str(norm(callee_defs[0].value)).replace('"', "'"), "C17-p", site, "`callee` is read from the operator at hand in every iteration", str([str(norm(d)) for d in callee_defs]))
+    loops = [lp for lp in ast.walk(blk) if isinstance(lp, ast.For) and any(isinstance(c, ast.Call) and str(norm(c.func)) == "op.inputs.insert" for c in ast.walk(lp))]
+    if len(loops) != 1:
+        raise AnalysisError(f"rewrite_npu_call_ops: {len(loops)} loops that wire the memory tensors")
+    it = loops[0].iter
+    src = it
+    why = ""
+    if isinstance(it, ast.Name):
+        defs = [st for st in ast.walk(fn) if isinstance(st, ast.Assign) and str(norm(st.targets[0])) == it.id]
+        direct = [d for d in defs if d in blk.body]
+        if len(defs) != 1 or len(direct) != 1:
+            why = f"`{it.id}` is not (re)built unconditionally in the iteration that uses it ({len(defs)} definitions, {len(direct)} of them directly in the operator's block)"
+        src = defs[-1].value if defs else it
+    ok = not why and isinstance(src, (ast.List, ast.Tuple)) and len(src.elts) == 4 and all(isinstance(e, ast.Attribute) and str(norm(e.value)) == "callee" and e.attr.endswith("_tensor") for e in src.elts)
+    rep.check(ok, "C17-p", site, "the four memory tensors wired to an Ethos-U operator are members of that operator's own callee",
+              (why or f"`{str(norm(src))[:80]}` is not a display of four `callee.<x>_tensor` members") + ": a later Ethos-U operator is wired to an earlier subgraph's command stream tensor and its own payload never reaches the output model")
+    wm = repo.mod("tflite_writer")
+    g = wm.func("TFLiteSerialiser.serialise_tensor")
+    gsite = "ethosu/vela/tflite_writer.py:TFLiteSerialiser.serialise_tensor"
+    defs = [st for st in ast.walk(g) if isinstance(st, (ast.Assign, ast.AugAssign)) and any(str(norm(t)) == "buf_id" for t in (st.targets if isinstance(st, ast.Assign) else [st.target]))]
+    first = [d for d in defs if str(norm(d.value)) == "self.buffer_map[tens]"]
+    rep.check(len(first) == 1, "C17-q", gsite, "the buffer index of a tensor is `self.buffer_map[tens]`", str([str(norm(d))[:60] for d in defs]))
+    for d in defs:
+        if d in first:
+            continue
+        v = d.value
+        key = v.args[0] if isinstance(v, ast.Call) and isinstance(v.func, ast.Attribute) and v.func.attr in ("setdefault", "get") and v.args else None
+        key_defs = [s.value for s in ast.walk(g) if isinstance(s, ast.Assign) and isinstance(key, ast.Name) and str(norm(s.targets[0])) == key.id] if key is not None else []
+        kexpr = key_defs[-1] if key_defs else key
+        partial = kexpr is None or any(isinstance(x, ast.Subscript) and isinstance(x.slice, ast.Slice) for x in ast.walk(kexpr)) or not any(
+            isinstance(x, ast.Call) and isinstance(x.func, ast.Attribute) and x.func.attr in ("tobytes", "tostring") for x in ast.walk(kexpr))
+        rep.check(not partial, "C17-q", gsite, f"`{str(norm(d))[:80]}` redirects the buffer only for byte-identical data",
+                  f"the sharing key `{str(norm(kexpr))[:80] if kexpr is not None else None}` does not cover the whole data: two command streams of equal length that agree at both ends share one buffer - one Ethos-U operator "
+                  "carries the other's command words")
+    stores = [st for st in ast.walk(g) if isinstance(st, ast.Assign) and isinstance(st.targets[0], ast.Subscript) and str(norm(st.targets[0].value)) == "self.buffers_to_write"]
+    if not stores:
+        raise AnalysisError("serialise_tensor: no store into buffers_to_write")
+    for st in stores:
+        rep.check(str(norm(st.targets[0].slice)) == "buf_id", "C17-q", gsite, f"`{str(norm(st))[:70]}` stores the data under the tensor's buffer index", "indexed by something else")
